@@ -7,6 +7,7 @@ mod util;
 mod c01;
 mod c02;
 mod c03;
+mod c04;
 mod nutsrec;
 mod c05;
 mod c07;
@@ -50,6 +51,7 @@ fn main() {
         ("c02", "replay") => c02::replay(rest),
         ("c02", "record") => c02::record(rest),
         ("c03", "record") => c03::record(rest),
+        ("c04", "record") => c04::record(rest),
         (p, m) => util::tool_error(&format!("unknown command {p} {m}")),
     }
 }
